@@ -92,7 +92,7 @@ Proof.
   all: try exact I.
   all: unfold orel.
   all: try solve [apply frel_to_state; apply urel_unlock; unfold urel; cbn; repeat split; auto; apply agree_set; assumption].
-  all: unfold enter_run, enter_exec; cbn [to_state of_state finish set_th release_ik with_pc persisted v_last v_lasttx v_pending v_batch v_iks v_refs v_revs v_locks v_queue v_cs v_uid gen threads published u_persisted u_last u_lasttx u_pending u_batch u_iks u_refs u_revs u_locks u_queue u_cs u_uid u_threads u_published t_req t_pc t_postings t_unb t_view t_entry t_txid t_granted t_resp t_gen];
+  all: unfold enter_run, enter_exec; cbn [to_state of_state finish set_th release_ik with_pc persisted v_last v_lasttx v_pending v_batch v_iks v_refs v_revs v_locks v_queue v_cs v_uid gen threads published u_persisted u_last u_lasttx u_pending u_batch u_iks u_refs u_revs u_locks u_queue u_cs u_uid u_threads u_published t_req t_pc t_postings t_unb t_view t_entry t_txid t_granted t_resp t_gen t_cancelled];
        repeat match goal with |- context [match ?c with _ => _ end] => destruct c eqn:? end.
   all: try solve [frel_close].
   all: frel_close.
@@ -111,7 +111,7 @@ Proof.
        | |- orel _ (match ?c with _ => _ end) _ => destruct c eqn:?
        end.
   all: unfold orel.
-  all: unfold enter_run, enter_exec; cbn [to_state of_state finish set_th release_ik with_pc persisted v_last v_lasttx v_pending v_batch v_iks v_refs v_revs v_locks v_queue v_cs v_uid gen threads published u_persisted u_last u_lasttx u_pending u_batch u_iks u_refs u_revs u_locks u_queue u_cs u_uid u_threads u_published t_req t_pc t_postings t_unb t_view t_entry t_txid t_granted t_resp t_gen];
+  all: unfold enter_run, enter_exec; cbn [to_state of_state finish set_th release_ik with_pc persisted v_last v_lasttx v_pending v_batch v_iks v_refs v_revs v_locks v_queue v_cs v_uid gen threads published u_persisted u_last u_lasttx u_pending u_batch u_iks u_refs u_revs u_locks u_queue u_cs u_uid u_threads u_published t_req t_pc t_postings t_unb t_view t_entry t_txid t_granted t_resp t_gen t_cancelled];
        repeat match goal with |- context [match ?c with _ => _ end] => destruct c eqn:? end.
   all: frel_close.
 Qed.
@@ -136,13 +136,66 @@ Proof.
   intros x Hx. rewrite !(e3_get_map (fun th => match t_pc th with PFinished => th | _ =>
      {| t_req := t_req th; t_pc := PFinished; t_postings := t_postings th; t_unb := t_unb th;
         t_view := t_view th; t_entry := t_entry th; t_txid := t_txid th;
-        t_granted := t_granted th; t_resp := Some RCrashed; t_gen := t_gen th |} end)).
+        t_granted := t_granted th; t_resp := Some RCrashed; t_gen := t_gen th; t_cancelled := t_cancelled th |} end)).
   rewrite (Ha x Hx). reflexivity.
+Qed.
+
+(* ---- cancellation: [cancel w] touches only the entry of [w]; [resume_cancelled w] is a [finish] of [w] after an
+   [unlock w] (which may grant queued threads, as any release by [w] does) or a [dequeue w] ----------------------- *)
+Lemma urel_finish : forall t w th r p a b c u1 u, urel t u1 u -> urel t (finish w th r p a b c u1) (finish w th r p a b c u).
+Proof.
+  intros t w th r p a b c u1 u (H1 & H2 & H3 & H4 & H5 & H6 & H7 & H8 & H9 & H10 & H11 & H12 & H13 & H14 & H15).
+  unfold urel, finish. cbn. rewrite H1, H6, H7, H8, H13. repeat split; auto. apply agree_set. exact H14.
+Qed.
+
+Lemma urel_dequeue : forall t w u1 u, urel t u1 u -> urel t (dequeue w u1) (dequeue w u).
+Proof.
+  intros t w u1 u (H1 & H2 & H3 & H4 & H5 & H6 & H7 & H8 & H9 & H10 & H11 & H12 & H13 & H14 & H15).
+  unfold urel, dequeue. cbn. rewrite H10. repeat split; auto.
+  intros Hin. apply H15. unfold remove_nat in Hin. apply filter_In in Hin. destruct Hin as [Hin _]. exact Hin.
+Qed.
+
+Lemma urel_of_state : forall t s1 s, frel t s1 s -> urel t (of_state s1) (of_state s).
+Proof.
+  intros t s1 s (Hobs & Hg & Hu & Ha & Hq). unfold urel, of_state. cbn.
+  repeat split; auto;
+    first [ exact (f_equal ob_disk Hobs) | exact (f_equal ob_last Hobs) | exact (f_equal ob_lasttx Hobs)
+          | exact (f_equal ob_pending Hobs) | exact (f_equal ob_batch Hobs) | exact (f_equal ob_iks Hobs)
+          | exact (f_equal ob_refs Hobs) | exact (f_equal ob_revs Hobs) | exact (f_equal ob_locks Hobs)
+          | exact (f_equal ob_queue Hobs) | exact (f_equal ob_cs Hobs) | exact (f_equal ob_events Hobs) ].
+Qed.
+
+Lemma frame_cancel : forall t s1 s w, frel t s1 s -> w <> t -> orel t (cancel s1 w) (cancel s w).
+Proof.
+  intros t s1 s w H Hw. pose proof (urel_of_state t s1 s H) as Hur. destruct H as (Hobs & Hg & Hu & Ha & Hq).
+  unfold cancel. rewrite (Ha w Hw), Hg.
+  destruct (get_thread (threads s) w) as [th|]; [|exact I].
+  destruct (negb (Nat.eqb (t_gen th) (gen s))); [exact I|].
+  destruct (pc_finished (t_pc th)); [exact I|].
+  unfold orel. apply frel_to_state.
+  destruct Hur as (H1 & H2 & H3 & H4 & H5 & H6 & H7 & H8 & H9 & H10 & H11 & H12 & H13 & H14 & H15).
+  unfold urel, set_th. cbn. repeat split; auto. apply agree_set. exact H14.
+Qed.
+
+Lemma frame_resume_cancelled : forall t s1 s w, frel t s1 s -> w <> t ->
+  orel t (resume_cancelled s1 w) (resume_cancelled s w).
+Proof.
+  intros t s1 s w H Hw. pose proof (urel_of_state t s1 s H) as Hur. destruct H as (Hobs & Hg & Hu & Ha & Hq).
+  unfold resume_cancelled. rewrite (Ha w Hw), Hg.
+  destruct (get_thread (threads s) w) as [th|]; [|exact I].
+  destruct (negb (Nat.eqb (t_gen th) (gen s))); [exact I|].
+  destruct (t_pc th); try exact I.
+  destruct (t_cancelled th); [|exact I].
+  cbv zeta. unfold orel. apply frel_to_state. apply urel_finish.
+  destruct (t_granted th); [apply urel_unlock|apply urel_dequeue]; exact Hur.
 Qed.
 
 (* an action that does not name [t] *)
 Definition avoids (t : tid) (a : action) : Prop :=
-  match a with AStart w _ => w <> t | AResume w => w <> t | _ => True end.
+  match a with
+  | AStart w _ => w <> t | AResume w => w <> t | ACancel w => w <> t | AResumeCancelled w => w <> t
+  | _ => True
+  end.
 
 Lemma frame_step : forall t s1 s a, frel t s1 s -> avoids t a -> orel t (step s1 a) (step s a).
 Proof.
@@ -153,6 +206,8 @@ Proof.
   - assert (Hb : v_batch s1 = v_batch s) by (destruct H as (Hobs & _); apply (f_equal ob_batch) in Hobs; exact Hobs).
     rewrite Hb. destruct (v_batch s); [|exact I]. simpl. apply frame_crash. exact H.
   - simpl. apply frame_crash. exact H.
+  - apply frame_cancel; assumption.
+  - apply frame_resume_cancelled; assumption.
 Qed.
 
 Lemma frame_run : forall t acts s1 s, frel t s1 s -> Forall (avoids t) acts -> orel t (run s1 acts) (run s acts).
